@@ -4,12 +4,21 @@ PROPERTY THEOREMS ONLY (helper lemmas: Proofs/Invocation.lean; model:
 Martian/Invocation.lean, which says what is abstracted: string escape syntax,
 float printing by strconv, Go map order).
 
-Equivalences used in the statements (the documented "≈"):
-* `normJ` / `normE` / `encLit`: a float whose shortest form prints without `.`
-  or exponent (`1.0`, `-0.0`, `1e5`) is re-read as the integer of the same
-  value; nothing else changes (`normalisation_changes_only_integral_floats`).
-* struct-vs-map flags of map literals are dictated by the parameter type
-  (`wt`); `erase` forgets them.
+What "survives unchanged" means for numbers (the documented "≈"):
+* the numeric value (as a real number) of every number survives EXACTLY, in
+  both directions and through the text leg (`float_value_preserved`,
+  `format_parse_preserves_json`);
+* the int-vs-float SYNTAX of an integral value is not preserved: JSON has one
+  number type, `FloatExp.appendJSON` writes a float that is integral and within
+  int64 as a JSON integer (`1234567.0`, `1e6` ↦ `1234567`, `1000000`) and the
+  MRO printer writes integral floats below 10^6 without `.`; read back they are
+  integers (`float_syntax_not_preserved`).  Integer → float is an implicit
+  conversion of the language, so the call is equivalent for float / untyped
+  parameters.  `normJ` / `normE` / `encLit` are this normalisation;
+* the sign of a floating-point zero is lost (`negative_zero_sign_lost`):
+  recorded as known finding C16:negative-zero.
+Struct-vs-map flags of map literals are dictated by the parameter type (`wt`);
+`erase` forgets them.
 -/
 import Martian.Invocation
 import Proofs.Invocation
@@ -23,21 +32,73 @@ from (struct tag) and `SplitExp.encodeJSON` writes it under are the model's
 `splitKey`. -/
 theorem facts_split_key : Gen.invocationSplitKey = splitKey := by decide
 
-/-- Regenerated obligation: `FloatExp.format` and `FloatExp.EncodeJSON` print
-with `strconv.AppendFloat(_, v, 'g', -1, 64)` — the rule `Flt.printsAsInt`
-models (shortest digits, `%e` iff exponent < -4 or ≥ 6). -/
+/-- Regenerated obligation: `FloatExp.format` (MRO text) and
+`FloatExp.appendJSON` (JSON) fall back to `strconv.AppendFloat(_, v, 'g', -1, 64)`
+— the rule `Flt.textAsInt` models (shortest digits, `%e` iff exponent < -4 or ≥ 6). -/
 theorem facts_float_format : Gen.floatExpFormat = [(0x67, -1, 64), (0x67, -1, 64)] := by decide
 
-/-- The only thing normalisation does to a scalar: a float that prints in
-integer syntax becomes the integer with the same value `± mant·10^exp`. -/
-theorem normalisation_changes_only_integral_floats (l : Lit) :
-    encLit l = l ∨ ∃ f, l = .flt f ∧ f.printsAsInt = true ∧ encLit l = .int f.intVal := by
+/-- Regenerated obligation: the shape of `FloatExp.appendJSON` that
+`Flt.jsonAsInt` models — guard `i := int64(e.Value); float64(i) == e.Value`,
+then `strconv.AppendInt(buf, i, 10)` — and both `MarshalJSON` and `EncodeJSON`
+of `FloatExp` go through it. -/
+theorem facts_float_json_shape : Gen.floatJsonShape =
+    ["init i := int64(e.Value)", "cond float64(i) == e.Value", "then strconv.AppendInt(buf, i, 10)",
+     "caller EncodeJSON", "caller MarshalJSON"] := by decide
+
+/-- The numeric value of a scalar survives the JSON printer exactly: the only
+thing that changes is that a float whose value is integral and within int64
+becomes the integer `± m·2^e`, which IS its value (for `0 ≤ e` or `m = 0`). -/
+theorem float_value_preserved (l : Lit) :
+    encLit l = l ∨ ∃ f, l = .flt f ∧ f.isIntegral = true ∧ inInt64 f.intVal = true
+      ∧ encLit l = .int f.intVal := by
   cases l with
   | flt f =>
-    by_cases h : f.printsAsInt = true
-    · exact Or.inr ⟨f, rfl, h, by simp [encLit, h]⟩
+    by_cases h : f.jsonAsInt = true
+    · refine Or.inr ⟨f, rfl, ?_, jsonAsInt_inInt64 f h, by simp [encLit, h]⟩
+      simp only [Flt.jsonAsInt, Bool.or_eq_true, beq_iff_eq, Bool.and_eq_true,
+        decide_eq_true_eq] at h
+      simp only [Flt.isIntegral, Bool.or_eq_true, beq_iff_eq, decide_eq_true_eq]
+      rcases h with h | h
+      · exact Or.inl h
+      · exact Or.inr h.1
     · exact Or.inl (by simp [encLit, h])
   | _ => exact Or.inl rfl
+
+/-- … and likewise for the MRO text printer followed by the lexer. -/
+theorem float_value_preserved_text (l : Lit) :
+    textLit l = l ∨ ∃ f, l = .flt f ∧ f.isIntegral = true ∧ textLit l = .int f.intVal := by
+  cases l with
+  | flt f =>
+    by_cases h : f.textAsInt = true
+    · refine Or.inr ⟨f, rfl, ?_, by simp [textLit, h]⟩
+      simp only [Flt.textAsInt, Bool.or_eq_true, beq_iff_eq, Bool.and_eq_true,
+        decide_eq_true_eq] at h
+      simp only [Flt.isIntegral, Bool.or_eq_true, beq_iff_eq, decide_eq_true_eq]
+      rcases h with h | h
+      · exact Or.inl h
+      · exact Or.inr h.1
+    · exact Or.inl (by simp [textLit, h])
+  | _ => exact Or.inl rfl
+
+/-- What is really lost, 1: the float syntax of an integral value.  The MRO
+literal `1234567.0` (a `FloatExp`) is marshalled as `1234567` and read back as
+an integer; `2.5` stays a float; 2^63 (outside int64) stays a float. -/
+theorem float_syntax_not_preserved :
+    encLit (.flt ⟨false, 1234567, 0⟩) = .int 1234567
+    ∧ encLit (.flt ⟨false, 5, -1⟩) = .flt ⟨false, 5, -1⟩
+    ∧ encLit (.flt ⟨false, 1, 63⟩) = .flt ⟨false, 1, 63⟩
+    ∧ encLit (.flt ⟨true, 1, 63⟩) = .int (-9223372036854775808) := by decide
+
+/-- What is really lost, 2 (known finding C16:negative-zero): `-0.0` comes
+back as the integer `0` from either printer — the sign of zero is gone. -/
+theorem negative_zero_sign_lost :
+    encLit (.flt ⟨true, 0, 0⟩) = .int 0 ∧ textLit (.flt ⟨true, 0, 0⟩) = .int 0 := by decide
+
+/-- The text leg (`BuildCallSource`'s formatter, then the MRO parser) does not
+change the JSON a call marshals to — although the two printers use different
+rules for integer syntax (10^6 vs int64). -/
+theorem format_parse_preserves_json (e : Exp) : encode (reparse e) = encode e :=
+  encode_reparse e
 
 /-- JSON → expression → JSON (any parameter type, any JSON value): whenever
 `convertToExp` yields an expression, marshalling it gives back the JSON value
@@ -58,6 +119,13 @@ theorem encode_convert_exact (t : TypeId) (j : J) (hi : jIntsOk j = true) :
   refine ⟨fix t.base t.arrayDim t.mapDim e0, by simp [convert, h0], ?_, ?_⟩
   · rw [encode_fix, encode_ofJ j e0 h0]
   · intro hn; rw [encode_fix, encode_ofJ j e0 h0, hn]
+
+/-- The whole first direction on one argument: invocation JSON → `convertToExp`
+→ formatted MRO text → MRO parser → `MarshalJSON` gives the JSON value back
+(up to the normalisation above). -/
+theorem source_roundtrip (t : TypeId) (j : J) (e : Exp) (h : convert t j = some e) :
+    encode (reparse e) = normJ j := by
+  rw [encode_reparse, encode_convert t j e h]
 
 /-- The hypothesis on integers is necessary (F1'): `9223372036854775808`
 (2^63, 19 digits: accepted by the int token rule) has no expression. -/
@@ -230,7 +298,7 @@ private def sV : Exp :=
   .map true (.cons kName (.lit (.str kA))
     (.cons kInner (.map true (.cons kA (.lit (.int 1)) .nil))
     (.cons kM (.map false (.cons kK
-        (.map true (.cons kA (.lit (.flt ⟨false, 25, -1⟩)) .nil)) .nil))
+        (.map true (.cons kA (.lit (.flt ⟨false, 5, -1⟩)) .nil)) .nil))
     (.cons kGrid (.arr (.cons (.arr (.cons (.lit (.int 1)) (.cons (.lit .null) .nil)))
         (.cons (.arr .nil) .nil))) .nil))))
 
@@ -247,8 +315,8 @@ example : wt .umap 0 0 (.map false (.cons kAB (.map false (.cons kX
 /-- the conversion really decides struct-vs-map by type on this value -/
 example : convert ⟨.struct sT, 0, 0⟩ (encode sV) = some sV := by rfl
 /-- `1.0` comes back as `1`, `2.5` stays a float -/
-example : encode (.arr (.cons (.lit (.flt ⟨false, 1, 0⟩)) (.cons (.lit (.flt ⟨false, 25, -1⟩)) .nil)))
-    = .arr (.cons (.lit (.int 1)) (.cons (.lit (.flt ⟨false, 25, -1⟩)) .nil)) := by rfl
+example : encode (.arr (.cons (.lit (.flt ⟨false, 1, 0⟩)) (.cons (.lit (.flt ⟨false, 5, -1⟩)) .nil)))
+    = .arr (.cons (.lit (.int 1)) (.cons (.lit (.flt ⟨false, 5, -1⟩)) .nil)) := by rfl
 /-- `split_status_roundtrip` / `call_roundtrip` hypotheses are satisfiable with a split argument -/
 example : ∃ bs, buildCall [(kX, ⟨.scalar, 0, 0⟩), (kY, ⟨.struct innerT, 0, 0⟩)]
     { args := [(kX, .obj (.cons splitKey (.arr (.cons (.lit (.int 1)) .nil)) .nil))],
